@@ -74,10 +74,9 @@ def frame_consistency(index: RepoIndex, rep, rule: str, geo: Geometry, pipe: Pip
             B = gi.eval(geo_expr(area_e), {'T': T, 'area': A()}, omod)
             rot = gi.eval(geo_expr(rot_e), {'T': T, 'area': A()}, omod)
         except AnalysisError as e:
-            rep.violation(rule, OBS, 'from_visibility', fn.node.lineno, src(pipe.grid_def),
-                          f'view area / rotation expression cannot be interpreted in the pose '
-                          f'algebra: {e}')
-            return
+            # not a verdict: the expression is outside what the pose algebra interprets
+            raise AnalysisError(f'view area / rotation expression cannot be interpreted in '
+                                f'the pose algebra: {e}')
         if B[0] != 'A' or rot[0] != 'O':
             rep.violation(rule, OBS, 'from_visibility', fn.node.lineno, src(pipe.grid_def),
                           f'`{src(area_e)}` is not an area or `{src(rot_e)}` not an orientation')
